@@ -362,7 +362,7 @@ CHECKS["C20"] = dict(
 
 CHECKS["C15"] = dict(
     stages=[stage("fuzz_avoid", flavour="fuzz", kind="fuzz", quick=dict(cases=160000, shards=16, max_len=600, timeout=1200),
-                  thorough=dict(cases=16000000, shards=16, max_len=1200, timeout=3600)),
+                  thorough=dict(cases=3200000, shards=16, max_len=1200, timeout=9000)),
             # replay-only: the witnesses of assertion findings are cases of other harnesses
             stage("ROUTE", props=["C03.", "C04.", "C05."], replay_only=True), stage("C10", props=["C10."], replay_only=True),
             stage("C11", props=["C11."], replay_only=True), stage("C06", props=["C06."], replay_only=True),
@@ -385,7 +385,7 @@ CHECKS["C15"] = dict(
                "only approximately reproducible; the saved artifact is the reproducible unit.",
     rule="libFuzzer executions of decoded API histories; non-trivial = the history contains at least one deletion and at least two "
          "processTransaction calls and did not end in a known assertion; distinct by FNV-1a of the decoded operation trace",
-    min_nontrivial=dict(quick=2000, thorough=100000),
+    min_nontrivial=dict(quick=2000, thorough=50000),
     max_aborted_frac=0.2,
     assumptions=["histories respect the documented preconditions: no deleteShape/deleteJunction of an object added in the open transaction, no use of a deleted handle (including those reported by newAndDeletedObjectListsFromHyperedgeImprovement), pin classes only where such a pin exists, no identical duplicate pins, no connector with both ends on one junction",
                  "improveHyperedgeRoutesMovingAddingAndDeletingJunctions is generated only with transactions on: its read-the-lists-before-the-next-processTransaction protocol cannot be followed when every call processes",
